@@ -227,6 +227,7 @@ def run(rep, facts, tier):
                 if pr and isinstance(pr[-1], dict) and pr[-1].get('n') == FLAG:
                     rep.violation('R17.2', '%s/writes-flag' % b.key, '%s is written outside handle_parsed_message' % FLAG, b.where(bb, si))
     # ---------------------------------------------------------------- R17.2 c
+    rule_17_7(rep, fx, mr)
     hw = fx.find(mr + 'handle_writer_submessage')
     gate_rtps_level(rep, fx, hw, lambda bb, t, og_: call_matches(t, 'MessageReceiver::reader_mut') or call_matches(t, *READER_SINKS) or call_matches(t, 'decode_and_handle_data', 'decode_and_handle_datafrag'),
                     EXEMPT_READERS, 'handle_writer_submessage')
@@ -455,3 +456,67 @@ def run(rep, facts, tier):
     # ------------------------------------------------------------ R17.6 crossed roles (shared lint, rdv/swaplint.py)
     from rdv import swaplint
     swaplint.run_rule(rep, facts['security'], 'R17.6', ['rtps::message_receiver', 'security::security_plugins'])
+
+
+def rule_17_7(rep, fx, mr):
+    """Interprocedural form of the rtps-level gate: whatever the functions are called and however the hand-over is split up, no route from the message entry to a
+    delivery may avoid the test of the special-case flag."""
+    rep.rule('R17.7', 'no ungated route: a MessageReceiver function is "ungated" if it contains a delivery (Reader::handle_*_msg, acknack_sender.try_send) or a call of an ungated '
+                      'function that is not dominated by a test of must_be_rtps_protection_special_case; fixpoint over the call graph of rtps::message_receiver; the functions that '
+                      'receive the parsed message (handle_parsed_message, handle_submessage, handle_secure_submessage) must not be ungated, i.e. every route from them to a delivery '
+                      'passes a function in which the flag test dominates the next step')
+    bodies = [b for b in fx.bodies if b.key.startswith('rtps::message_receiver::') and not b.j.get('test')]
+    info = {}
+    for b in bodies:
+        og = Origins(b, summaries=True)
+        P = Pos(b)
+        flag_edges = [(sbb, tg) for sbb, tg, cond, lab in switch_edges(b, fx, og) if cond[0] == 'field' and cond[1] == FLAG and isinstance(lab, bool)]
+        sinks = [(bb, 'sink:' + callee_res(t).rsplit('::', 1)[-1]) for bb, t in b.calls() if call_matches(t, *READER_SINKS) or
+                 (callee_res(t).endswith('try_send') and has_field(og.of_operand(t['args'][0], bb, 'term'), 'acknack_sender'))]
+        calls = []
+        for bb, t in b.calls():
+            tg, _dyn = fx.call_targets(t)
+            for k in tg:
+                if k.startswith('rtps::message_receiver::'):
+                    calls.append((bb, k))
+        # closures created here run as part of this function for the purpose of the gate
+        for bb, si, st in b.statements():
+            if st['s'] == 'assign' and st['rv']['r'] == 'agg' and st['rv'].get('kind') == 'closure':
+                from rdv.core import norm_path
+                calls.append((bb, norm_path(st['rv']['def'])))
+        info[b.key] = (b, P, flag_edges, sinks, calls)
+    ungated = {}
+    changed = True
+    while changed:
+        changed = False
+        for k, (b, P, fe, sinks, calls) in info.items():
+            if k in ungated:
+                continue
+            for bb, what in sinks + [(bb, 'call:' + c) for bb, c in calls if c in ungated]:
+                dominated = bool(fe) and P.every_path_passes(None, (bb, 'term'), via_edges=fe, from_entry=True)
+                if not dominated:
+                    ungated[k] = (bb, what)
+                    changed = True
+                    break
+    n_sinks = sum(len(v[3]) for v in info.values())
+    rep.floor('R17.7', n_sinks, 6, 'delivery sites in rtps::message_receiver')
+    for root in ('handle_parsed_message', 'handle_submessage', 'handle_secure_submessage'):
+        k = mr + root
+        if k not in info:
+            raise CheckBroken('%s not found' % k)
+        if k in ungated:
+            # spell the route out
+            route = [k]
+            cur = k
+            for _ in range(8):
+                bb, what = ungated[cur]
+                if what.startswith('call:'):
+                    cur = what[5:]
+                    route.append(cur)
+                else:
+                    route.append(what)
+                    break
+            rep.violation('R17.7', '%s/ungated-route' % root, 'in an rtps-protected domain a submessage can travel %s without %s being tested on the way: the rtps-level gate is bypassed '
+                          'on this route' % (' -> '.join(x.rsplit('::', 1)[-1] for x in route), FLAG), info[k][0].where(ungated[k][0]))
+        else:
+            rep.ok('R17.7', '%s/gated' % root, 'every route to a delivery passes a dominating flag test (%d ungated inner functions, each called only behind the test)' % len(ungated), info[k][0].where())
